@@ -11,6 +11,7 @@ mod gen_tok;
 mod gen_claims;
 mod facts;
 mod gen_text;
+mod impls;
 mod util;
 
 use std::io::{BufRead, Write};
@@ -23,6 +24,7 @@ fn main() {
     let mut out = std::io::BufWriter::new(out.lock());
     match args.get(1).map(|s| s.as_str()) {
         Some("facts") => facts::print_facts(&mut out),
+        Some("impls") => impls::print_impls(&mut out),
         Some("exec") => {
             // stdin: op lines; stdout: one result per line
             for line in std::io::stdin().lock().lines() {
